@@ -1,6 +1,7 @@
 /- GENERATED from lean/obligations.json by /verif/check. `lake env lean GoSquare/Audit.lean` prints the
    axioms every registered property theorem depends on; accepted: propext, Classical.choice, Quot.sound. -/
 import GoSquare.Properties.C01
+import GoSquare.Properties.C03
 import GoSquare.Properties.C05
 import GoSquare.Properties.C06
 import GoSquare.Properties.C07
@@ -24,6 +25,20 @@ import GoSquare.Properties.C20
 #print axioms GoSquare.buildLoop_spec
 #print axioms GoSquare.appendTx_spec
 #print axioms GoSquare.appendBlobTx_spec
+#print axioms GoSquare.C03.build_wellformed
+#print axioms GoSquare.C03.construct_wellformed
+#print axioms GoSquare.C03.wellFormed_of_isSquareOf
+#print axioms GoSquare.C03.userNs_of_validateForBlob
+#print axioms GoSquare.build_square
+#print axioms GoSquare.construct_square
+#print axioms GoSquare.export_kept
+#print axioms GoSquare.exportCore_layout
+#print axioms GoSquare.writeSquare_concat
+#print axioms GoSquare.blobLoop_spec
+#print axioms GoSquare.squareOf_shares_512
+#print axioms GoSquare.squareOf_ns_sorted
+#print axioms GoSquare.squareOf_length
+#print axioms GoSquare.sortedElems_ns_sorted
 #print axioms GoSquare.C05.aligned_block_is_row_inner_node
 #print axioms GoSquare.C05.subtree_roots_are_row_inner_nodes
 #print axioms GoSquare.C05.chunks_getElem
